@@ -71,7 +71,17 @@ pub enum CliSignal {
 
 #[derive(Clone, Debug, Serialize, Deserialize)]
 pub enum Sc {
-	Lib { jobs: Vec<JobClass>, quit: Quit, ignores: bool, same_action: bool, horizon: u64 },
+	Lib {
+		jobs: Vec<JobClass>,
+		quit: Quit,
+		ignores: bool,
+		same_action: bool,
+		horizon: u64,
+		/// same-action variant with an async action handler that awaits the start ticket before
+		/// it asks to quit and lets its handle go: the command is running when the quit arrives
+		#[serde(default)]
+		await_start: bool,
+	},
 	Cli { signal: CliSignal, stop_signal_int: bool, stop_timeout: u64, ignores: bool, horizon: u64 },
 }
 
@@ -81,7 +91,9 @@ struct Plan {
 	jobs: Vec<JobClass>,
 	quit: Option<Quit>,
 	same_action: bool,
-	handles: Vec<Job>,
+	/// handles the scenario itself needs later (queued controls, graceful restart, outside
+	/// holder); every other job's handle is let go, as an application normally would
+	handles: Vec<Option<Job>>,
 	quit_at: Option<(u64, usize)>,
 	restart_armed_at: Option<u64>,
 }
@@ -157,7 +169,36 @@ fn cli_argv(sc: &Sc) -> Vec<String> {
 }
 
 /// The scripted action handler of the library-level scenario.
-fn scripted_action(config: &Config) {
+fn scripted_action(config: &Config, await_start: bool) {
+	if await_start {
+		config.on_action_async(move |mut a| {
+			Box::new(async move {
+				let (step, quit) = PLAN.with(|p| {
+					let mut p = p.borrow_mut();
+					let s = p.step;
+					p.step += 1;
+					(s, p.quit)
+				});
+				simchild::note("action-step", step as i64, 0, "");
+				if step == 0 {
+					let (_, job) = a.create_job(cmd(0));
+					job.start().await;
+					drop(job);
+					PLAN.with(|p| p.borrow_mut().handles = vec![None]);
+					match quit {
+						Some(Quit::Abort) => a.quit(),
+						Some(Quit::Graceful(g)) => a.quit_gracefully(Signal::Terminate, rt::TICK * g as u32),
+						None => {}
+					}
+					let pos = simchild::with(|w| w.log.len());
+					simchild::note("quit-requested", 0, 0, format!("{quit:?}"));
+					PLAN.with(|p| p.borrow_mut().quit_at = Some((rt::now(), pos)));
+				}
+				a
+			})
+		});
+		return;
+	}
 	config.on_action(move |mut a| {
 		let (step, jobs, quit, same) = PLAN.with(|p| {
 			let mut p = p.borrow_mut();
@@ -168,10 +209,10 @@ fn scripted_action(config: &Config) {
 		simchild::note("action-step", step as i64, 0, "");
 		let do_quit = |a: &mut watchexec::action::ActionHandler| {
 			// controls queued in the same action as the quit
-			let handles: Vec<Job> = PLAN.with(|p| p.borrow().handles.clone());
+			let handles: Vec<Option<Job>> = PLAN.with(|p| p.borrow().handles.clone());
 			for (i, c) in jobs.iter().enumerate() {
 				if *c == JobClass::QueuedControls {
-					if let Some(j) = handles.get(i) {
+					if let Some(Some(j)) = handles.get(i) {
 						j.stop();
 						j.start();
 						j.run(move |_| simchild::note("queued-marker", i as i64, 0, ""));
@@ -202,7 +243,8 @@ fn scripted_action(config: &Config) {
 							job.start();
 						}
 					}
-					handles.push(job);
+					let keep = matches!(c, JobClass::QueuedControls | JobClass::MidGracefulRestart | JobClass::HeldOutside);
+					handles.push(keep.then_some(job));
 				}
 				PLAN.with(|p| p.borrow_mut().handles = handles);
 				if same {
@@ -211,10 +253,10 @@ fn scripted_action(config: &Config) {
 			}
 			1 => {
 				// arm the graceful restart timers, then (in this same action) quit
-				let handles: Vec<Job> = PLAN.with(|p| p.borrow().handles.clone());
+				let handles: Vec<Option<Job>> = PLAN.with(|p| p.borrow().handles.clone());
 				for (i, c) in jobs.iter().enumerate() {
 					if *c == JobClass::MidGracefulRestart {
-						handles[i].try_restart_with_signal(Signal::Hangup, rt::TICK * RESTART_GRACE as u32);
+						handles[i].as_ref().expect("kept").try_restart_with_signal(Signal::Hangup, rt::TICK * RESTART_GRACE as u32);
 						PLAN.with(|p| p.borrow_mut().restart_armed_at = Some(rt::now()));
 					}
 				}
@@ -234,7 +276,7 @@ enum Act {
 }
 
 async fn lib_body(sc: &Sc) -> Result<Obs, String> {
-	let Sc::Lib { jobs, quit, same_action, horizon, .. } = sc else { unreachable!() };
+	let Sc::Lib { jobs, quit, same_action, horizon, await_start, .. } = sc else { unreachable!() };
 	PLAN.with(|p| {
 		let mut p = p.borrow_mut();
 		p.jobs = jobs.clone();
@@ -243,7 +285,7 @@ async fn lib_body(sc: &Sc) -> Result<Obs, String> {
 	});
 	let config = Config::default();
 	config.throttle(std::time::Duration::ZERO);
-	scripted_action(&config);
+	scripted_action(&config, *await_start);
 	config.on_error(|e| simchild::note("runtime-error", 0, 0, e.error.to_string()));
 	let wx = Watchexec::with_config(config).map_err(|e| format!("with_config: {e}"))?;
 	wx.send_event(Event::default(), Priority::Urgent).await.map_err(|e| format!("send: {e}"))?;
@@ -252,7 +294,7 @@ async fn lib_body(sc: &Sc) -> Result<Obs, String> {
 	rt::settle_quiet().await.map_err(|_| "livelock in set-up".to_string())?;
 	let waiters: Arc<Mutex<Vec<usize>>> = Arc::default();
 	if !same_action {
-		let handles: Vec<Job> = PLAN.with(|p| p.borrow().handles.clone());
+		let handles: Vec<Option<Job>> = PLAN.with(|p| p.borrow().handles.clone());
 		for (i, c) in jobs.iter().enumerate() {
 			match c {
 				JobClass::Finished => {
@@ -262,7 +304,7 @@ async fn lib_body(sc: &Sc) -> Result<Obs, String> {
 					}
 				}
 				JobClass::HeldOutside => {
-					let j = handles[i].clone();
+					let j = handles[i].clone().expect("kept");
 					let w = waiters.clone();
 					tokio::spawn(async move {
 						j.to_wait().await;
@@ -481,6 +523,25 @@ fn at_end(sc: &Sc, main_result: Option<String>) {
 		if live != 0 {
 			push(format!("C08/process-left-behind/{key}"), format!("{live} supervised processes neither reaped nor dropped after the main task ended"));
 		}
+		// graceful quit: every process still running is ended through the stop sequence
+		// (signal, then kill + wait at expiry). A handle merely dropped is SIGKILLed as a
+		// single process, its status never collected, and the other members of its process
+		// group are not touched at all — that is how "the rest of the group survives"
+		if let Sc::Lib { quit: Quit::Graceful(_), jobs, .. } = sc {
+			for (i, r) in log.iter().enumerate() {
+				if let Ev::Drop { id } = &r.ev {
+					let ended = log[..i].iter().any(|x| match &x.ev {
+						Ev::Exit { id: c, cause } => c == id && *cause != "drop",
+						Ev::Reap { id: c, .. } => c == id,
+						_ => false,
+					});
+					let outside = jobs.iter().any(|j| matches!(j, JobClass::HeldOutside));
+					if !ended && !outside {
+						push(format!("C08/graceful-quit-dropped-a-running-process/{key}"), format!("drop#{id} at log {i}: the process was neither over nor stopped"));
+					}
+				}
+			}
+		}
 		if let (Sc::Lib { jobs, same_action, .. }, Some((_, qpos))) = (sc, quit_requested) {
 			// a start queued in the very action that asks to quit is a pending control and still runs
 			let may_spawn = *same_action || jobs.iter().any(|j| matches!(j, JobClass::MidGracefulRestart | JobClass::QueuedControls));
@@ -656,7 +717,7 @@ pub fn scenarios(tier: Tier) -> Vec<(Sc, Vec<Bounds>)> {
 						continue; // these classes need time to pass between creation and quit
 					}
 					let g = if let Quit::Graceful(g) = q { g } else { 0 };
-					let sc = Sc::Lib { jobs: vec![c], quit: q, ignores, same_action: same, horizon: RESTART_GRACE + g + 4 };
+					let sc = Sc::Lib { jobs: vec![c], quit: q, ignores, same_action: same, horizon: RESTART_GRACE + g + 4, await_start: false };
 					let passes = match tier {
 						Tier::Quick => [both(0), both(1)].concat(),
 						Tier::Thorough => [both(0), both(1), both(2)].concat(),
@@ -664,6 +725,15 @@ pub fn scenarios(tier: Tier) -> Vec<(Sc, Vec<Bounds>)> {
 					out.push((sc, passes));
 				}
 			}
+		}
+	}
+	// created, started (awaited) and quit in one invocation of an async action handler, no
+	// handle kept anywhere
+	for q in quits {
+		for ignores in [false, true] {
+			let g = if let Quit::Graceful(g) = q { g } else { 0 };
+			let sc = Sc::Lib { jobs: vec![JobClass::Running], quit: q, ignores, same_action: true, horizon: RESTART_GRACE + g + 4, await_start: true };
+			out.push((sc, [both(0), both(1)].concat()));
 		}
 	}
 	// two jobs: every pair of classes, default schedule only (the worker's HashMap order is
@@ -674,7 +744,7 @@ pub fn scenarios(tier: Tier) -> Vec<(Sc, Vec<Bounds>)> {
 				let ignore_set: &[bool] = if tier == Tier::Thorough { &[false, true] } else { &[true] };
 				for ignores in ignore_set {
 					let g = if let Quit::Graceful(g) = q { g } else { 0 };
-					out.push((Sc::Lib { jobs: vec![a, b], quit: q, ignores: *ignores, same_action: false, horizon: RESTART_GRACE + g + 4 }, both(0)));
+					out.push((Sc::Lib { jobs: vec![a, b], quit: q, ignores: *ignores, same_action: false, horizon: RESTART_GRACE + g + 4, await_start: false }, both(0)));
 				}
 			}
 		}
